@@ -19,12 +19,19 @@ uint8_t FN(char* self, uint8_t flag);
 struct static_string { uint64_t size; char* data; };
 uint8_t FN(char* self, char* sym);
 #endif
+/* C20 E1: coordinates as a function of the cursor: line = 1 + number of '\n' before it, col = 1 + distance to the last '\n' */
+static char* g_buf;
+static void ref_coords(unsigned off, int32_t* line, int32_t* col) { int32_t l = 1, c = 1; for (unsigned i = 0; i < N; i++) if (i < off) { if (g_buf[i] == '\n') { l++; c = 1; } else c++; } *line = l; *col = c; }
 #ifdef STUB_SKIPCOMMENT
 /* contract of SkipComment (proved on the real function by the SkipComment harness: in bounds, true => advanced) */
 uint8_t STUB_SKIPCOMMENT(char* self) {
   if (nondet_u8() & 1) return 0;
   uint64_t rem = (uint64_t)(P_END(self) - P_POS(self)); uint64_t k = nondet_u64(); __CPROVER_assume(k >= 1 && k <= rem);
-  P_POS(self) += k; int32_t l = nondet_i32(), c = nondet_i32(); __CPROVER_assume(l >= 1 && l < (1 << 30) && c >= 1 && c < (1 << 30)); P_LINE(self) = l; P_COL(self) = c;
+  P_POS(self) += k; int32_t l = nondet_i32(), c = nondet_i32(); __CPROVER_assume(l >= 1 && l < (1 << 30) && c >= 1 && c < (1 << 30));
+#ifdef COORDS
+  ref_coords((unsigned)(P_POS(self) - g_buf), &l, &c);      /* the callee keeps the coordinate invariant (its own harness) */
+#endif
+  P_LINE(self) = l; P_COL(self) = c;
   return 1;
 }
 #endif
@@ -34,7 +41,11 @@ int skipws_throws;
 uint8_t STUB_SKIPWS(char* self, uint8_t skip_cr) {
   uint64_t rem = (uint64_t)(P_END(self) - P_POS(self)); uint64_t k = nondet_u64(); __CPROVER_assume(k <= rem);
   if (k == 0) return 0;
-  P_POS(self) += k; int32_t l = nondet_i32(), c = nondet_i32(); __CPROVER_assume(l >= 1 && l < (1 << 30) && c >= 1 && c < (1 << 30)); P_LINE(self) = l; P_COL(self) = c;
+  P_POS(self) += k; int32_t l = nondet_i32(), c = nondet_i32(); __CPROVER_assume(l >= 1 && l < (1 << 30) && c >= 1 && c < (1 << 30));
+#ifdef COORDS
+  ref_coords((unsigned)(P_POS(self) - g_buf), &l, &c);
+#endif
+  P_LINE(self) = l; P_COL(self) = c;
   return 1;
 }
 #endif
@@ -45,6 +56,11 @@ int main(void) {
   unsigned off = nondet_u32(); __CPROVER_assume(off <= N);
   int32_t line = nondet_i32(), col = nondet_i32(), lastcol = nondet_i32();
   __CPROVER_assume(line >= 1 && line < (1 << 30) && col >= 1 && col < (1 << 30) && lastcol >= 1 && lastcol < (1 << 30));
+  g_buf = buf;
+#ifdef COORDS
+  ref_coords(off, &line, &col);                              /* start in a state that satisfies the coordinate invariant */
+  if (off > 0 && buf[off - 1] == '\n') { int32_t l2, c2; ref_coords(off - 1, &l2, &c2); lastcol = c2; }     /* column of the newline just crossed */
+#endif
   parser_init(parser, buf, N, off, line, col, lastcol);
   P_DEPTH(parser) = nondet_u64() & 511;                    /* Depth_Counter inside Symbol()/Char()/... : arbitrary legal depth */
   char* before = P_POS(parser);
@@ -88,6 +104,10 @@ int main(void) {
     if ((r & 1) && N) __CPROVER_assert(pos == before + sl && memcmp(before, lit, sl) == 0, "C01: a matched token consumes exactly its own bytes");
 #endif
     __CPROVER_assert(P_DEPTH(parser) < 512, "C01: parse depth restored");
+#ifdef COORDS
+    if (N) { int32_t el, ec; ref_coords((unsigned)(pos - buf), &el, &ec);
+      __CPROVER_assert(P_LINE(parser) == el && P_COL(parser) == ec, "C20: line and column always denote the cursor (1 + newlines before it, 1 + bytes since the last newline)"); }
+#endif
   }
 #ifndef NO_WITNESS
   if (!__exc_pending && (r & 1)) __CPROVER_assert(0, "witness: accepted");
